@@ -154,12 +154,94 @@ let run_index (inp : in_channel) (out : out_channel) =
      done
    with End_of_file -> ())
 
+(* ---------- C13: node view and lookups of one trie (format of TrieX, mode trie) ---------- *)
+let hex_of_nibs (l : nat list) : string =
+  match l with
+  | [] -> "."
+  | _ -> String.concat "" (List.map (fun x -> Printf.sprintf "%x" (int_of_nat x)) l)
+
+let ov_str (v : byte list option option) : string =
+  match v with None | Some None -> "-" | Some v -> val_str v
+
+let print_views buf (t : tree) =
+  let vs = node_views t in
+  let idof v = (match v with VLeaf (i, _, _) -> int_of_nat i | VInner (i, _, _, _, _, _) -> int_of_nat i) in
+  let vs = List.sort (fun a b -> compare (idof a) (idof b)) vs in
+  List.iter (fun v ->
+      match v with
+      | VLeaf (id, ord, tail) ->
+        Printf.bprintf buf "N %d L %d %s\n" (int_of_nat id) (int_of_nat ord)
+          (match tail with None -> "-" | Some t -> hex_of_bytes t)
+      | VInner (id, big, step, pfx, fc, labels) ->
+        Printf.bprintf buf "N %d I %d %d %s %d %s\n" (int_of_nat id) (if big then 1 else 0)
+          (match pfx with None -> int_of_nat step | Some p -> List.length p)
+          (match pfx with None -> "-" | Some p -> hex_of_nibs p)
+          (int_of_nat fc)
+          (String.concat "," (List.map (fun x -> string_of_int (int_of_nat x)) labels)))
+    vs
+
+let run_trie (inp : in_channel) (out : out_channel) =
+  let ropt = ref { r_dedup = None; r_inner = None; r_leaf = None; r_complete = None }
+  and keys = ref [] and vals = ref [] and hasvals = ref false and built = ref None in
+  let buf = Buffer.create 65536 in
+  let pr fmt = Printf.bprintf buf fmt in
+  let get_built () =
+    match !built with
+    | Some b -> b
+    | None ->
+      let b = build (normalize !ropt) (List.rev !keys) (if !hasvals then Some (List.rev !vals) else None) in
+      built := Some b;
+      (match b with
+       | Err e -> pr "B %s\n" (err_str e)
+       | Ok t ->
+         pr "B ok\n";
+         (match t.t_leaves with
+          | None -> pr "LV nil\n"
+          | Some ls -> pr "LV %s\n" (String.concat "," (List.map hex_of_bytes ls)));
+         (match t.t_root with None -> () | Some r -> print_views buf r));
+      b in
+  let idstr (t : tree option) = match t with None -> -1 | Some t -> int_of_nat (tree_id t) in
+  (try
+     while true do
+       let line = input_line inp in
+       match split_ws line with
+       | "T" :: id :: d :: i :: l :: cc :: hv :: _ ->
+         ropt := { r_dedup = optbool d; r_inner = optbool i; r_leaf = optbool l; r_complete = optbool cc };
+         keys := []; vals := []; hasvals := (hv = "1"); built := None;
+         Buffer.clear buf;
+         Printf.fprintf out "C %s\n" id
+       | "K" :: k :: v :: _ ->
+         keys := bytes_of_hex k :: !keys;
+         if !hasvals then vals := bytes_of_hex v :: !vals
+       | "Q" :: q :: _ ->
+         (match get_built () with
+          | Err _ -> ()
+          | Ok t ->
+            let qb = bytes_of_hex q in
+            let g = (match getid t qb with None -> -1 | Some i -> int_of_nat i) in
+            let gv = found_str (get t qb) in
+            let rv = found_str (rangeget t qb) in
+            let sv = (match search t qb with
+                | Err e -> err_str e
+                | Ok ((l, e), r) -> Printf.sprintf "%s %s %s" (ov_str l) (ov_str e) (ov_str r)) in
+            let ((il, ie), ir) = searchid t qb in
+            pr "q %s G %d %s R %s S %s I %d %d %d\n" q g gv rv sv (idstr il) (idstr ie) (idstr ir))
+       | "E" :: _ -> ignore (get_built ()); output_string out (Buffer.contents buf)
+       | "L" :: id :: _ -> Printf.fprintf out "C %s+L\n" id; output_string out (Buffer.contents buf)
+       | [] -> ()
+       | _ -> failwith ("bad line: " ^ line)
+     done
+   with End_of_file -> ())
+
 let () =
   match Array.to_list Sys.argv with
+  | _ :: "trie" :: infile :: outfile :: _ ->
+    let inp = open_in infile in let out = open_out outfile in
+    run_trie inp out; close_out out
   | _ :: "geti" :: infile :: outfile :: _ ->
     let inp = open_in infile in let out = open_out outfile in
     run_geti inp out; close_out out
   | _ :: "index" :: infile :: outfile :: _ ->
     let inp = open_in infile in let out = open_out outfile in
     run_index inp out; close_out out
-  | _ -> prerr_endline "usage: driver <geti|index> <in> <out>"; exit 2
+  | _ -> prerr_endline "usage: driver <geti|index|trie> <in> <out>"; exit 2
